@@ -253,6 +253,45 @@ fn case<G: CurveTag>(bytes: &[u8], col: &mut Collector, max_members: usize) -> R
     Ok(())
 }
 
+/// A long batch of cheap valid members with one cancelling pair (final scalar a shifted by +d
+/// and -d) at positions p and p + dist: must be rejected whatever the distance is.
+fn distance_case<G: CurveTag>(total: usize, p: usize, dist: usize, col: &mut Collector) -> Result<(), Failure> {
+    let fx = fixture::<G>(0, 0);
+    let fx1 = fixture::<G>(1, 0);
+    let mut plus = fx.mirror.clone();
+    let mut minus = fx.mirror.clone();
+    let d = Fr::<G>::from(5u64);
+    plus.ipp.b += d;
+    minus.ipp.b -= d;
+    let (pp, pm) = (plus.to_real().unwrap(), minus.to_real().unwrap());
+    let mut members: Vec<BatchMember<G>> = vec![];
+    for i in 0..total {
+        if i == p {
+            members.push(BatchMember { prog: &fx.prog, commitments: &fx.commitments, proof: &pp });
+        } else if i == p + dist {
+            members.push(BatchMember { prog: &fx.prog, commitments: &fx.commitments, proof: &pm });
+        } else if i % 5 == 0 {
+            members.push(BatchMember { prog: &fx1.prog, commitments: &fx1.commitments, proof: &fx1.proof });
+        } else {
+            members.push(BatchMember { prog: &fx.prog, commitments: &fx.commitments, proof: &fx.proof });
+        }
+    }
+    let (r, pn) = run_batch::<G>(&members, 256, (p * 1000 + dist) as u64);
+    if pn.is_some() {
+        return Ok(());
+    }
+    if matches!(r, Some(Ok(()))) {
+        return Err(Failure::new(
+            "C07:batch-accepts:cancelling-pair-at-distance",
+            format!("a batch of {} members with a cancelling invalid pair at positions {} and {} (distance {}) is accepted", total, p, p + dist, dist),
+            json!({"curve": G::CURVE.name(), "members": total, "positions": [p, p + dist]}),
+        ));
+    }
+    col.class("distance-sweep");
+    col.nontrivial(fp_of(&(G::CURVE, total, p, dist)));
+    Ok(())
+}
+
 fn dispatch(sub: &str, bytes: &[u8], col: &mut Collector) -> Result<(), Failure> {
     let mut it = sub.split('/');
     let _ = it.next();
@@ -262,6 +301,10 @@ fn dispatch(sub: &str, bytes: &[u8], col: &mut Collector) -> Result<(), Failure>
 }
 
 pub fn replay(sub: &str, bytes: &[u8], col: &mut Collector) -> Result<(), Failure> {
+    if sub == "c07/distance-sweep" && bytes.len() == 5 {
+        let (p, dist) = ((bytes[1] as usize) << 8 | bytes[2] as usize, (bytes[3] as usize) << 8 | bytes[4] as usize);
+        return with_curve!(Curve::ALL[bytes[0] as usize % 3], G => distance_case::<G>(p + dist + 3, p, dist, col));
+    }
     dispatch(sub, bytes, col)
 }
 
@@ -278,6 +321,26 @@ pub fn run(tier: &str, seed: u64) -> i32 {
         let sub = format!("c07/{}/{}", c.name(), mm);
         rep.outcome.merge(replay_corpus("C07", &sub, &|b, col| dispatch(&sub, b, col)));
         rep.outcome.merge(search(&sub, seed, n, 200, &|b, col| dispatch(&sub, b, col)));
+    }
+    // cancelling pairs at chosen distances inside long batches
+    if rep.outcome.found.is_empty() {
+        let mut items = vec![];
+        let curves: Vec<Curve> = if tier == "thorough" { Curve::ALL.to_vec() } else { vec![Curve::ALL[(seed % 3) as usize]] };
+        for c in curves {
+            for dist in [1usize, 2, 3, 4, 7, 8, 15, 16, 31, 32, 63, 64, 127, 128, 255, 256, 257, 511, 512, 513] {
+                for p in [0usize, 1, 6] {
+                    items.push((c, p, dist));
+                }
+            }
+        }
+        let o = crate::runner::enumerate(
+            "c07/distance-sweep",
+            &items,
+            &|(c, p, d)| vec![c.index() as u8, (*p >> 8) as u8, *p as u8, (*d >> 8) as u8, *d as u8],
+            &|(c, p, d), col| with_curve!(*c, G => distance_case::<G>(*p + *d + 3, *p, *d, col)),
+        );
+        rep.outcome.merge(o);
+        rep.outcome.exhaustive = false;
     }
     for (c, f) in [("all-valid", 0.02), ("cancelling-set", 0.1), ("mixed-padded-sizes", 0.1), ("mixed-phases", 0.1), ("one-invalid-at-head", 0.02), ("one-invalid-at-tail", 0.02), ("one-invalid-in-middle", 0.008), ("one-invalid-alone", 0.005), ("empty-batch", 0.005), ("capacity-insufficient-for-a-member", 0.02), ("members=1", 0.02), ("long-batch(>=40)", 0.01)] {
         rep.required_classes.push((c.to_string(), f));
